@@ -54,7 +54,7 @@ def reset_caches():
     GlobalCache()['cia_path'] = None
 
 
-def gen_spec(rng, nlayers=None, nwn=None, ngas=None, contribs=None, emission=False):
+def gen_spec(rng, nlayers=None, nwn=None, ngas=None, contribs=None, emission=False, extent=None):
     """a random but physically plausible small model"""
     n = nlayers or rng.choice([2, 3, 3, 4, 5, 7, 9, 12])
     m = nwn or rng.choice([1, 2, 3, 4])
@@ -111,6 +111,13 @@ def gen_spec(rng, nlayers=None, nwn=None, ngas=None, contribs=None, emission=Fal
         if H * efolds < 0.25 * R:
             break
         spec['planet_mass'] *= 2.0
+    if extent is not None:
+        # a very extended atmosphere (light, hot planet over a wide pressure range): scale height x e-folds, at the
+        # surface gravity, is the given fraction of the radius; with gravity falling outwards the top lies at
+        # x/(1-x) radii, still finite for x < 1
+        x = rng.uniform(*extent)
+        g = kB * max(spec['T']) * efolds / (2.0 * amu * x * R)
+        spec['planet_mass'] = g * R ** 2 / (G * MJ)
     return spec
 
 
